@@ -482,4 +482,27 @@ def r12_each_target_has_its_own_processor(ctx):
     r1_fresh_copy_per_run(ctx)
 
 
-RULES = [r12_each_target_has_its_own_processor, r10_reported_champions, r11_fitness_and_resimulation_agree, r9_resimulated_data_layout, r8_builtin_formulas, r1_extent_check, r2_upper_bound, r3_same_range_both_sides, r4_accumulation_and_pairing, r5_weights_reach_function, r6_builtins_use_inputs, r7_checks_precede_optimiser]
+def r13_task_identity(ctx):
+    """"Each paired with its own input arguments": the champion re-simulations are dask tasks built in nested loops (target/input pair x island); dask identifies a task by its key, so an explicit key / name (dask_key_name=, name=, token=) must distinguish every iteration of every enclosing loop - otherwise tasks of different pairs collapse into one and every target is given the first pair's simulation. Checked for every explicitly keyed task of the package."""
+    n = 0
+    for f in sorted(ctx.repo.all_functions(), key=lambda x: x.qual):
+        for c in calls_in(f.node):
+            keyed = [k for k in c.keywords if k.arg in ("dask_key_name", "name", "token", "key") and (k.arg == "dask_key_name" or "delayed" in norm(c.func))]
+            if not keyed:
+                continue
+            from sa.index import ancestors as _anc3
+
+            loops_ = [a for a in _anc3(c) if isinstance(a, (ast.For, ast.AsyncFor, ast.comprehension))]
+            if not loops_:
+                continue
+            n += 1
+            used = names_in(expand(f, keyed[0].value))
+            missing = [norm(l_.target) for l_ in loops_ if not (used & {x.id for x in ast.walk(l_.target) if isinstance(x, ast.Name)})]
+            ctx.check(not missing, f"{f.qual}#task-key", "the explicit task key distinguishes every iteration of the enclosing loops" if not missing else f"the task key `{norm(keyed[0].value)[:60]}` does not depend on the loop over `{missing[0]}`: the tasks of different iterations share one key, dask computes one of them and hands its result to all (every target gets the first pair's simulation)", where=f, node=c)
+    ctx.note(f"explicitly keyed dask tasks inside loops: {n}")
+
+
+FIXTURES = dict(globals().get("FIXTURES", {}), r13_task_identity={"dir": "c11_r13", "expect_construct": "#task-key"})
+
+
+RULES = [r13_task_identity, r12_each_target_has_its_own_processor, r10_reported_champions, r11_fitness_and_resimulation_agree, r9_resimulated_data_layout, r8_builtin_formulas, r1_extent_check, r2_upper_bound, r3_same_range_both_sides, r4_accumulation_and_pairing, r5_weights_reach_function, r6_builtins_use_inputs, r7_checks_precede_optimiser]
